@@ -295,7 +295,8 @@ def run_property(prop: str, tier: str, seed: int) -> int:
                 real = cand; nviol = len(cand)
                 break
     if real:
-        first = next(v for v in real if v)
+        first = next((v for v in real if v), {"what": "more than 5000 violations; the recorded ones all fall into known-finding classes", "input": None,
+                                              "observed": None, "expected": None, "replay": {}})
         shr = getattr(mod, "shrink_violation", None)
         if shr:
             try:
